@@ -3677,6 +3677,14 @@ int64_t ExpressionEvaluator::evaluate_function_call_impl(const ASTNode *node) {
                 interpreter_.get_ffi_manager()->callForeignFunction(node->name,
                                                                     args);
 
+            // 修飾呼び出し(module.f())と同様に、失敗は診断を出して終了する
+            if (result.type == TYPE_UNKNOWN) {
+                std::cerr << "Error: FFI call failed: "
+                          << interpreter_.get_ffi_manager()->getLastError()
+                          << std::endl;
+                std::exit(1);
+            }
+
             // 結果を設定
             if (result.type == TYPE_DOUBLE || result.type == TYPE_FLOAT) {
                 TypedValue typed_result(result.double_value,
